@@ -333,7 +333,7 @@ def cqpt_to_cqmpt(
         d_dash = np.hstack([-d_qpt, np.zeros(d_dash_right_size)])
 
         a_1 = np.hstack([d_dash] * (m_mprocess - 1) + [e_qpt])
-        a_qmpt = np.vstack([a_0, a_1])
+        a_qmpt = np.vstack([a_0, a_1]) if m_mprocess > 1 else a_1
 
         b_0 = np.zeros(d_qpt.shape[0] * (m_mprocess - 1))
         b_1 = d_qpt.T[0]
